@@ -189,12 +189,18 @@ func (rb *ResponseBuffer) Write(buf []byte) (int, error) {
 	return rb.Buffer.Write(buf)
 }
 
-// Flush implements http.Flusher. While the response is being buffered
-// there is nothing to send yet: flushing the underlying ResponseWriter
-// would commit its header - status 200 and whatever fields it has at
-// that moment - in place of the status and header of the buffered response.
+// Flush implements http.Flusher. Like net/http it writes the header
+// first if that has not been done yet, so that rb decides about buffering
+// and does not write the header a second time on the next Write.
+// While the response is being buffered there is nothing to send yet:
+// flushing the underlying ResponseWriter would commit its header - status
+// 200 and whatever fields it has at that moment - in place of the status
+// and header of the buffered response.
 func (rb *ResponseBuffer) Flush() {
-	if rb.wroteHeader && !rb.stream {
+	if !rb.wroteHeader {
+		rb.WriteHeader(http.StatusOK)
+	}
+	if !rb.stream {
 		return
 	}
 	rb.ResponseWriterWrapper.Flush()
